@@ -1,4 +1,5 @@
 import PB.Model.Varint
+import PB.Model.Base64
 /-
 The abstract specification of C16: a plain byte queue (`Bytes`, front of the queue = head of the list)
 with the obvious operations. Short enough to read in a minute.
@@ -49,6 +50,12 @@ inductive Op where
   | getNextBlock | getNextBlockAsContainer
   | getNextN8 | getNextN16 | getNextN32 | getNextN64
   | holdsData | length
+  /- container/serialization.go: the JSON form (base64 in quotes, `PB.Base64.jsonEnc`); the argument of
+     `unmarshalJSON` is what the JSON decoder makes of the text (`none` = the decoder reports an error) -/
+  | marshalJSON | unmarshalJSON (decoded : Option Bytes)
+  /- `WriteAllTo` into a writer that accepts `budget` bytes in total and then fails (io.Writer contract:
+     a short write comes with an error) -/
+  | writeAllTo (budget : Nat)
   deriving Repr
 
 inductive Out where
@@ -105,6 +112,10 @@ def step (q : Q) : Op → Q × Out
   | .getNextN64 => outNum (getNextN unpack64 10 q)
   | .holdsData => (q, .bool (decide (q.length > 0)))
   | .length => (q, .num q.length)
+  | .marshalJSON => (q, .bytes (PB.Base64.jsonEnc q))
+  | .unmarshalJSON (some raw) => (raw, .unit)
+  | .unmarshalJSON none => (q, .err "json")
+  | .writeAllTo budget => (q, .wts (q.take budget) (decide (q.length ≤ budget)))
 
 /-- Run a sequence of operations, collecting the observable results. -/
 def run (q : Q) : List Op → Q × List Out
